@@ -58,7 +58,12 @@ def cells(lo=0.5, hi=500.0, gmin=0.02):
     off = st.tuples(logfl(1e-9, 1e-1), st.sampled_from([-1.0, 1.0])).map(lambda t: t[0] * t[1])
     near = st.builds(lambda x, y, z, d1, d2, d3, g: [x, y, z, 90.0 + d1, 90.0 + d2, g + d3], a, a, a, off, off, off,
                      st.sampled_from([90.0, 90.0, 120.0, 60.0]))
-    return st.one_of(general, general, oblique, oblique, boundary, fam, near)
+    # exactly special angles (measure-zero but perfectly legitimate cells) and exactly equal edge lengths with generic angles
+    sp = st.sampled_from([60.0, 90.0, 120.0, 45.0, 135.0, 90.0])
+    exact = st.builds(lambda x, y, z, a1, a2, a3, eq: ([x, x, x] if eq == 2 else [x, x, z] if eq == 1 else [x, y, z]) + [a1, a2, a3],
+                      a, a, a, sp, sp, sp, st.integers(0, 2)).filter(lambda c: O.gram_det(c) >= gmin)
+    ties = st.builds(lambda c, eq: ([c[0]] * 3 if eq else [c[0], c[0], c[2]]) + c[3:], general, st.booleans())
+    return st.one_of(general, general, oblique, oblique, boundary, fam, near, exact, ties)
 
 
 def perturbed(cell, rel):
@@ -83,7 +88,13 @@ def rot_specs(near_gimbal_weight=2):
     gim = st.tuples(ang, d, ang, st.booleans()).map(
         lambda t: {"kind": "euler", "e": [t[0], (math.pi - t[1]) if t[3] else t[1], t[2]]})
     prod = st.tuples(st.integers(0, 23), st.one_of(gim, eul)).map(lambda t: {"kind": "prod", "i": t[0], "b": t[1]})
-    return st.one_of(*([quat, eul, axis, prod] + [gim] * near_gimbal_weight))
+    # Euler angles that are exact multiples of pi/2 (and 2 pi), alone or mixed with generic ones
+    q = st.sampled_from([0.0, math.pi / 2, math.pi, 3 * math.pi / 2, 2 * math.pi])
+    speul = st.tuples(st.one_of(q, ang), st.sampled_from([0.0, math.pi / 2, math.pi]), st.one_of(q, ang)).map(lambda e: {"kind": "euler", "e": list(e)})
+    # rotations by exactly 180, 120, 90 degrees about generic axes are covered by quat with special components
+    spq = st.tuples(st.sampled_from([0.0, 1.0, -1.0, 0.5]), st.sampled_from([0.0, 1.0, -1.0, 0.5]), st.sampled_from([0.0, 1.0, 0.5]),
+                    st.sampled_from([0.0, 1.0, -0.5])).filter(lambda t: sum(x * x for x in t) > 0.1).map(lambda t: {"kind": "quat", "q": list(t)})
+    return st.one_of(*([quat, eul, axis, prod, speul, spq] + [gim] * near_gimbal_weight))
 
 
 def build_rotation(spec):
